@@ -169,6 +169,7 @@ type verifC16Row struct {
 	Errs       int             `json:"errs"`
 	AimedAt    []string        `json:"aimed_at,omitempty"`   // zero-length log files seen at the instant of an aimed kill
 	EmptyLeft  []string        `json:"empty_left,omitempty"` // zero-length log files in the directory after the kill
+	Planted    string          `json:"planted,omitempty"`    // a zero-length next memtable file put there before the reopen (a further kill inside the next start)
 	Deferred   bool            `json:"deferred"`             // the next writer was started right after this kill; verified at a later reopen
 	LaterKills int             `json:"later_kills"`          // kills between this one and the reopen that verified it
 	ReopenOK   bool            `json:"reopen_ok"`
@@ -234,6 +235,14 @@ func TestVerifC16(t *testing.T) {
 	rng := &verifC16Gen{s: seed ^ 0xC16}
 	var expects []verifC16Expect // cumulative: what every later lookup must return
 	var pending []*verifC16Pending
+	forceAimed := false
+	sum := func(l []int) int {
+		n := 0
+		for _, x := range l {
+			n += x
+		}
+		return n
+	}
 	for cycle := 0; cycle < cycles; cycle++ {
 		row := &verifC16Row{K: "cycle", Cycle: cycle, Mon: []string{}, Acks: make([]int, verifC16Writers)}
 		pr, pw, err := os.Pipe()
@@ -263,12 +272,17 @@ func TestVerifC16(t *testing.T) {
 			row.KillMode = "after-start" // may hit process start, Open (replay of what the previous kill left) or the first stores
 			row.DelayMs = rng.below(250)
 		}
-		if row.KillMode == "after-first-ack" && rng.below(4) == 0 {
+		if forceAimed {
+			// the previous kill was followed directly by this writer: what that writer acknowledged exists only in its memtable
+			// file; aim this kill into the Open that meets it (creation of the next memtable file)
+			row.KillMode = "after-first-ack"
+		}
+		if row.KillMode == "after-first-ack" && (forceAimed || rng.below(4) == 0) {
 			// aimed: the moment a zero-length memtable / value log file is visible in the directory (the engine is inside the
 			// creation or deletion of one of its log files), else after the delay
 			row.KillMode = "aimed-at-empty-log-file"
 			row.DelayMs = 400 + rng.below(600) // from the start of the process: the window opens during Open and the first flush
-			if rng.below(2) == 0 {
+			if !forceAimed && rng.below(2) == 0 {
 				// only once the writer's Open has returned: aims at the background flush deleting the replayed memtable file
 				row.KillMode = "aimed-at-empty-log-file-after-open"
 			}
@@ -354,9 +368,30 @@ func TestVerifC16(t *testing.T) {
 		}
 		pending = append(pending, &verifC16Pending{row: row, acked: acked})
 		// 1 kill in 4 is followed directly by the next writer: its Open meets what this kill left (no clean close in between)
+		forceAimed = false
 		if rng.below(4) == 0 && cycle != cycles-1 {
 			row.Deferred = true
+			forceAimed = sum(row.Acks) > 0 && rng.below(2) == 0
 			continue
+		}
+		// 1 verified kill in 5: as if the next start had been killed inside the creation of its memtable file before this
+		// reopen (a zero-length next NNNNN.mem next to the memtable file that alone holds what the writer acknowledged)
+		if sum(row.Acks) > 0 && rng.below(5) == 0 {
+			maxFid := 0
+			if ents, err := os.ReadDir(dir); err == nil {
+				for _, e := range ents {
+					if strings.HasSuffix(e.Name(), ".mem") {
+						if n, err := strconv.Atoi(strings.TrimSuffix(e.Name(), ".mem")); err == nil && n > maxFid {
+							maxFid = n
+						}
+					}
+				}
+			}
+			name := fmt.Sprintf("%05d.mem", maxFid+1)
+			if os.WriteFile(dir+"/"+name, nil, 0600) == nil {
+				row.Planted = name
+				row.EmptyLeft = verifC16EmptyLogFiles(dir)
+			}
 		}
 		// reopen the same directory
 		t0 := time.Now()
@@ -453,7 +488,7 @@ func TestVerifC16(t *testing.T) {
 					}
 					switch {
 					case !found && lastAcked >= 0:
-						row.Mon = append(row.Mon, fmt.Sprintf("acknowledged VAA %s (writer %d step %d of cycle %d, killed %d ms later, %d further kills before this reopen) is missing after the reopen", id.ToString(), g, js[lastAcked], cycle, row.DelayMs, row.LaterKills))
+						row.Mon = append(row.Mon, fmt.Sprintf("acknowledged VAA %s (writer %d step %d of cycle %d, killed %d ms later, %d further kills before this reopen) is missing after the reopen%s", id.ToString(), g, js[lastAcked], cycle, row.DelayMs, row.LaterKills, map[bool]string{true: " (zero-length " + row.Planted + " planted before the reopen)", false: ""}[row.Planted != ""]))
 					case found && gotVer < 0:
 						row.Mon = append(row.Mon, fmt.Sprintf("lookup of %s returns bytes that are not any VAA stored under that identifier", id.ToString()))
 					case found && lastAcked >= 0 && gotVer < steps[js[lastAcked]].ver:
